@@ -69,6 +69,7 @@ def check(ctx):
     ctx.rule("C07-R3", "the argument of acos is clipped to [-1, 1] on all paths; the dihedral is atan2(|b2| b1.(b2 x b3), (b1 x b2).(b2 x b3))")
     ctx.rule("C07-R4", "PHI/PSI/OMEGA and CHI1..5 tables equal the IUPAC-IUB definitions; residue offsets parse to (-1,0,0,0),(0,0,0,1),(0,0,1,1); every chi(k+1) row continues a chi(k) row")
     cf = C.get(ctx.repo)
+    c05.no_foreign_attribute_stores(ctx, "C07-R4", [ANG, DIH], floor=10)
     # ---- R1
     c05.dispatch(ctx, "C07-R1", [(ANG, "compute_angles"), (DIH, "compute_dihedrals")])
     c05.wrappers(ctx, "C07-R1", ["_angle_mic", "_dihedral_mic"])
